@@ -270,8 +270,16 @@ class ShardCtx:
         except hypothesis.errors.FailedHealthCheck as e:
             raise HarnessError("hypothesis health check: %s" % e)
         except hypothesis.errors.Flaky as e:
-            # a case that fails then passes: report as harness error with detail
-            raise HarnessError("flaky case under hypothesis: %s\nlast=%r" % (e, last))
+            # schedule-dependent failure that did not reproduce identically while
+            # shrinking: keep the last failing spec (unshrunk) as the finding
+            if not last:
+                raise HarnessError("flaky case under hypothesis without a recorded failure: %s" % e)
+            f = dict(last)
+            f["size"] = len(json.dumps(f["spec"], default=repr))
+            f["count"] = 1
+            f["flaky"] = True
+            self.stats.failures.append(f)
+            self.stats.notes.append("hypothesis reported a flaky failure (schedule dependent): %s" % str(e)[:200])
         except BaseException as e:  # unexpected exception out of the harness/case
             if isinstance(e, (KeyboardInterrupt, SystemExit)):
                 raise
